@@ -113,6 +113,7 @@ type Machine struct {
 	Stop   *StopAt
 	Probe  bool
 	SpecView bool
+	InvTag map[*Term]string // assumed loop invariants: term -> "<loop>:<label>"
 }
 
 // TopCtx describes the function under verification.
@@ -153,6 +154,12 @@ func (m *Machine) Clone() *Machine {
 	}
 	n.PC = append([]*Term{}, m.PC...)
 	n.Trace = append([]string{}, m.Trace...)
+	if m.InvTag != nil {
+		n.InvTag = make(map[*Term]string, len(m.InvTag))
+		for k, v := range m.InvTag {
+			n.InvTag[k] = v
+		}
+	}
 	if m.Locals != nil {
 		n.Locals = map[string]Val{}
 		for k, v := range m.Locals {
